@@ -1112,7 +1112,13 @@ impl<D: Device, P: Protocol, S: Socket, TS: TimeSource> GenericCloud<D, P, S, TS
 
     pub fn verif_dropped(&self) -> (u64, u64, u64, u64) {
         let d = &self.traffic.dropped;
-        (d.in_bytes_total, d.in_packets_total as u64, d.out_bytes_total, d.out_packets_total as u64)
+        // totals are only brought up to date once per statistics period: add the running period
+        (
+            d.in_bytes_total + d.in_bytes,
+            (d.in_packets_total + d.in_packets) as u64,
+            d.out_bytes_total + d.out_bytes,
+            (d.out_packets_total + d.out_packets) as u64,
+        )
     }
 
     pub fn verif_own_addresses(&self) -> Vec<SocketAddr> {
